@@ -381,6 +381,8 @@ def prepare_attr_value(
     Returns:
         The prepared value.
     """
+    if value is UNCHANGED:
+        return UNCHANGED  # Nothing to prepare; `mutate_attr` treats this as a no-op.
     value = mutate_value(
         old_value=MISSING,
         new_value=value,
